@@ -103,15 +103,36 @@ class Ctx:
         self.undecided.append(f"{rule} at {site}: {msg}")
 
 
+_IMPORT_CACHE: dict = {}
+
+
 def import_rules(ctx: "Ctx", module: str, rules, new_rule: str,
                  pred=None) -> int:
     """run another property's rule module and adopt the obligations of the
     given rule ids under `new_rule` (a shared structural clause, e.g. cache
     coherence of the pipeline's mutators is also a necessary condition of
     'the stored errors belong to the projected trajectories')"""
-    mod = importlib.import_module(f"sa.rules.{module}")
-    sub = Ctx(ctx.pid, ctx.prog, ctx.tier, ctx.seed)
-    mod.check(sub)
+    if getattr(ctx, "imported", False):
+        # a rule module that is itself being run for another property does
+        # not pull in third properties (no cycles; the importing property
+        # names its sources directly)
+        return 10 ** 6
+    key = (id(ctx.prog), module)
+    sub = _IMPORT_CACHE.get(key)
+    if sub is None:
+        mod = importlib.import_module(f"sa.rules.{module}")
+        sub = Ctx(ctx.pid, ctx.prog, ctx.tier, ctx.seed)
+        sub.imported = True
+        try:
+            mod.check(sub)
+        except AnalysisError as e:
+            sub.undecided.append(f"* {module}: {e}")
+        _IMPORT_CACHE[key] = sub
+    if any(u.startswith("* ") for u in sub.undecided):
+        ctx.undecided.append(
+            f"{new_rule} (shared clause of {module.upper()}): " +
+            [u for u in sub.undecided if u.startswith("* ")][0][2:])
+        return 10 ** 6
     n = 0
     for o in sub.obligations:
         if o.rule in rules and (pred is None or pred(o)):
